@@ -84,3 +84,82 @@ Definition analyse (rule : flag_rule) (threshold klen : Z) (clk : nat -> Z) (ste
 (* a clock that advances: at least `step` between two polls *)
 Definition ClockOK (clk : nat -> Z) (step : Z) : Prop :=
   0 < step /\ clk 0%nat <= clk 1%nat /\ forall i, (1 <= i)%nat -> clk i + step <= clk (S i).
+
+(* ------------------------------------------------------------------ the sequential branch (kernels below the threshold)
+   `analyse` above treats it as a black box that takes seq_work and never reads the timeout (the code as
+   shipped).  Here it is a state machine of its own, over the same kind of abstract clock.
+
+   The enumeration `all` is what the chained all_simple_paths generators yield, in their order, when
+   they are run to exhaustion.  One step of the machine = one resumption of the generator: it either
+   yields the next path or reports exhaustion.  clk 0 is `start_time`; clk i (1 <= i <= length all) is
+   the reading of time.time() made right after the i-th path has been yielded (the deadline test
+   `timeout != -1 and time.time() - start_time > timeout` that the repaired loop evaluates BEFORE it
+   appends the path); clk (S (length all)) is the instant at which the generator reports exhaustion.
+   A path that is yielded at a reading beyond the deadline is not appended: the flag then says that
+   a genuine path is missing from the result.
+
+   SeqIgnoresTimeout  : the code as shipped (all_paths.extend(generator): no clock reading at all);
+   SeqDeadlinePerPath : patches/C19-fix-sequential-timeout.diff.  checks/c19.py reads the rule off the source. *)
+Inductive seq_rule := SeqIgnoresTimeout | SeqDeadlinePerPath.
+
+Inductive seq_exit :=
+| SeqExhausted      (* the generators ran to their end *)
+| SeqCut            (* `self.timed_out = True; break` *)
+| SeqOutOfFuel.     (* artefact of the fuel; shown unreachable *)
+
+Section Sequential.
+  Context {A : Type}.     (* a path; the machine never looks inside *)
+
+  Record seq_state := mkst {
+    st_n : nat;              (* paths yielded so far = clock readings made after start_time *)
+    st_acc : list A;         (* all_paths *)
+    st_rest : list A }.      (* what the generators would still yield *)
+
+  Record seq_outcome := mkseq {
+    s_how : seq_exit;
+    s_exit : nat;            (* index of the instant (in clk) at which the loop is left *)
+    s_flag : bool;           (* self.timed_out *)
+    s_result : list A }.     (* all_paths when the loop is left *)
+
+  (* timeout != -1 and time.time() - start_time > timeout, evaluated at reading i *)
+  Definition late (clk : nat -> Z) (T : Z) (i : nat) : bool :=
+    negb (T =? -1) && (T <? clk i - clk 0%nat).
+
+  Definition seq_step (rule : seq_rule) (clk : nat -> Z) (T : Z) (s : seq_state) : seq_state + seq_outcome :=
+    match st_rest s with
+    | [] => inr (mkseq SeqExhausted (S (st_n s)) false (st_acc s))             (* StopIteration: the for loop ends *)
+    | p :: r =>                                                                (* the generator yields p *)
+        let i := S (st_n s) in
+        match rule with
+        | SeqIgnoresTimeout => inl (mkst i (st_acc s ++ [p]) r)
+        | SeqDeadlinePerPath =>
+            if late clk T i then inr (mkseq SeqCut i true (st_acc s))          (* self.timed_out = True; break *)
+            else inl (mkst i (st_acc s ++ [p]) r)                              (* all_paths.append(path) *)
+        end
+    end.
+
+  Fixpoint seq_iter (rule : seq_rule) (fuel : nat) (clk : nat -> Z) (T : Z) (s : seq_state) : seq_outcome :=
+    match fuel with
+    | O => mkseq SeqOutOfFuel (st_n s) false (st_acc s)
+    | S f => match seq_step rule clk T s with
+             | inl s' => seq_iter rule f clk T s'
+             | inr o => o
+             end
+    end.
+
+  Definition run_sequential (rule : seq_rule) (clk : nat -> Z) (T : Z) (all : list A) : seq_outcome :=
+    seq_iter rule (S (length all)) clk T (mkst 0 [] all).
+End Sequential.
+
+(* check_for_loopcarried_dep as a whole with the sequential branch as a state machine:
+   (timed_out, time spent in the search, paths handed to the post-processing).  seq_all = the complete
+   enumeration of the sequential search; the parallel branch is the one of `analyse`. *)
+Definition analyse_seq (rule : flag_rule) (srule : seq_rule) (threshold klen : Z) (clk : nat -> Z) (step T : Z)
+           (ws : list worker) (seq_all : list path) : bool * Z * list path :=
+  if threshold <=? klen then
+    let o := run_parallel rule clk step T ws in (timed_out o, clk (exit_poll o) - clk 0%nat, concat (shared o))
+  else
+    let o := run_sequential srule clk T seq_all in (s_flag o, clk (s_exit o) - clk 0%nat, s_result o).
+
+(* every step of the generator (yield or exhaustion) takes at most dmax *)
+Definition StepsWithin (clk : nat -> Z) (dmax : Z) : Prop := forall i, clk (S i) <= clk i + dmax.
